@@ -60,6 +60,7 @@ type bytesCase struct {
 	Times   int    `json:"times,omitempty"`
 	Tail    string `json:"tail,omitempty"`
 	BufSize int    `json:"buf_size"`
+	Chunks  []int  `json:"chunks,omitempty"` // the bytes arrive in reads of these sizes (then the rest at once); empty: one read
 }
 
 func (c bytesCase) bytes() []byte {
@@ -95,7 +96,7 @@ func checkDecode(c bytesCase) *verdict {
 	var msgs int
 	var derr error
 	if p := guard(func() {
-		dec := sut.VerifNewDecoder(&gen.ChunkReader{Data: data}, c.BufSize)
+		dec := sut.VerifNewDecoder(&gen.ChunkReader{Data: data, Chunks: c.Chunks}, c.BufSize)
 		for {
 			_, err := dec.Decode()
 			if err != nil {
@@ -167,7 +168,7 @@ var hostileConstants = []string{
 
 func genBytes(t *rapid.T) bytesCase {
 	c := bytesCase{BufSize: rapid.SampledFrom([]int{32, 64, 4096, 8192}).Draw(t, "buf")}
-	switch rapid.IntRange(0, 8).Draw(t, "cls") {
+	switch rapid.IntRange(0, 9).Draw(t, "cls") {
 	case 0: // deep nesting
 		depth := rapid.SampledFrom([]int{10, 100, 1000, 10000, 100000, 400000}).Draw(t, "depth")
 		if vh.Thorough() && rapid.IntRange(0, 3).Draw(t, "deeper") == 0 {
@@ -215,8 +216,33 @@ func genBytes(t *rapid.T) bytesCase {
 		c.Tail = rapid.SampledFrom([]string{"", ":1\r\n", "*1\r\n$4\r\nping\r\n"}).Draw(t, "tail")
 	case 4: // wide and nested with declared widths larger than the data
 		c.Data = []byte(strings.Repeat("*3\r\n", rapid.IntRange(1, 50).Draw(t, "d")) + ":1\r\n")
+	case 6, 7: // a pipeline of valid messages (commands, replies, inline lines), at most lightly damaged, arriving in several reads:
+		// whatever state an earlier message left in the reader meets a cut inside a later line
+		var b []byte
+		for i, n := 0, rapid.IntRange(2, 12).Draw(t, "msgs"); i < n; i++ {
+			switch rapid.IntRange(0, 4).Draw(t, "mk") {
+			case 0:
+				b = append(b, ref.Enc(gen.Value(t, "pv", 2, 300, 5))...)
+			case 1:
+				b = append(b, rapid.SampledFrom([]string{"PING\r\n", "get k\r\n", "set  k   v\r\n", "+OK\r\n", ":12345\r\n", "-ERR some error text\r\n", "$-1\r\n", "*0\r\n"}).Draw(t, "line")...)
+			default:
+				args := []string{rapid.SampledFrom([]string{"GET", "SET", "MGET", "PING", "HSET", "DEL"}).Draw(t, "cname")}
+				for k, m := 0, rapid.IntRange(0, 4).Draw(t, "cargc"); k < m; k++ {
+					args = append(args, rapid.StringMatching(`[a-z0-9]{0,12}`).Draw(t, "carg"))
+				}
+				b = append(b, ref.Enc(ref.Cmd(args...))...)
+			}
+		}
+		if rapid.IntRange(0, 2).Draw(t, "damage") == 0 && len(b) > 0 {
+			pos := rapid.IntRange(0, len(b)-1).Draw(t, "dpos")
+			b[pos] = rapid.Byte().Draw(t, "dbyte")
+		}
+		c.Data = b
 	default:
 		c.Data = rapid.SliceOfN(rapid.SampledFrom([]byte("*$+-:0123456789\r\n ab")), 0, 64).Draw(t, "junk")
+	}
+	if c.Repeat == "" && len(c.Data) > 1 && rapid.IntRange(0, 2).Draw(t, "chunked") != 0 {
+		c.Chunks = gen.Chunks(t, "chunks", c.Data)
 	}
 	return c
 }
